@@ -142,6 +142,25 @@ Fixpoint alloc_exported (s : state) (i : nat) (n size : nat) : state * list nat 
       (s3, t :: ts)
   end.
 
+(* exported globals: a GlobalInstance the instance points to; nothing points back (interpreter; wazevo's
+   GlobalInstance.Me is the only extra edge and the model keeps the fewer) *)
+Fixpoint alloc_globals (s : state) (i : nat) (n : nat) : state * list nat :=
+  match n with
+  | O => (s, [])
+  | S m =>
+      let '(s1, g) := alloc s (mkObj KGlobal [] [] [None] None [] true false) in
+      let s2 := add_vis s1 i g in
+      let '(s3, gs) := alloc_globals s2 i m in
+      (s3, g :: gs)
+  end.
+
+(* imported globals: Globals[k] = the exporter's GlobalInstance, nothing else is recorded *)
+Fixpoint link_globals (s : state) (i : nat) (gs : list nat) : state :=
+  match gs with
+  | [] => s
+  | g :: r => link_globals (add_vis s i g) i r
+  end.
+
 (* imported tables: instance -> table and table.involvingModuleInstances += instance *)
 Fixpoint link_tables (s : state) (i : nat) (ts : list nat) : state :=
   match ts with
@@ -171,11 +190,14 @@ Definition inst_ok (s : state) (i : nat) : bool :=
   && is_none (o_owner (getd s (me_of s i))) && memb i (o_vis (getd s (me_of s i))).
 Definition rec_ok (s : state) (i f : nat) : bool :=
   inst_ok s i && (f <? length (o_dir (getd s (me_of s i)))) && memb (rec_of s i f) (o_vis (getd s (me_of s i))).
-(* holder t of instance i may be written by i: it is private to i or i is among its involving instances *)
-Definition holder_ok (s : state) (i t : nat) : bool :=
-  let h := holder_of s i t in
-  inst_ok s i && (t <? length (tl (o_dir (getd s i)))) && memb h (o_vis (getd s i))
-  && match o_owner (getd s h) with None => memb i (o_vis (getd s h)) | Some _ => true end.
+(* holder t is one of instance i's tables/globals (own or imported): i's code can read and write it *)
+Definition holder_acc (s : state) (i t : nat) : bool :=
+  inst_ok s i && (t <? length (tl (o_dir (getd s i)))) && memb (holder_of s i t) (o_vis (getd s i)).
+(* holder h tracks instance i: it is private to its owner (only that instance points to it) or it lists i among
+   its involving instances (exported and imported TABLES do; exported/imported GLOBALS have no such list) *)
+Definition involvedb (s : state) (i h : nat) : bool :=
+  match o_owner (getd s h) with None => memb i (o_vis (getd s h)) | Some _ => true end.
+Definition holder_ok (s : state) (i t : nat) : bool := holder_acc s i t && involvedb s i (holder_of s i t).
 Definition open (s : state) (i : nat) : bool := negb (o_closed (getd s i)).
 
 (* ---- operations ----
@@ -187,7 +209,9 @@ Record ispec := mkSpec {
   sp_impf : list (nat * nat);        (* (defining instance, record index): imported functions, resolved *)
   sp_impt : list (nat * nat);        (* (exporting instance, holder index): imported tables *)
   sp_nfun : nat; sp_nexp : nat; sp_npriv : nat; sp_nglob : nat; sp_size : nat;
-  sp_elems : list (nat * nat * nat)  (* (holder index, slot, record index): active element segments / global initialisers *) }.
+  sp_elems : list (nat * nat * nat); (* (holder index, slot, record index): active element segments / initialisers of private globals *)
+  sp_nexpg : nat;                    (* exported mutable funcref globals (initially null) *)
+  sp_impg : list (nat * nat)         (* (exporting instance, holder index): imported globals *) }.
 
 Inductive op :=
 | OCompile
@@ -215,6 +239,10 @@ Definition impt_ok (s : state) (p : nat * nat) : bool :=
   let '(j, t) := p in
   let h := holder_of s j t in
   holder_ok s j t && registered s j && open s j && kind_eqb (o_kind (getd s h)) KTable && is_none (o_owner (getd s h)).
+Definition impg_ok (s : state) (p : nat * nat) : bool :=
+  let '(j, t) := p in
+  let h := holder_of s j t in
+  holder_acc s j t && registered s j && open s j && kind_eqb (o_kind (getd s h)) KGlobal && is_none (o_owner (getd s h)).
 
 Definition set_ref (s : state) (i t k f : nat) : state :=
   if holder_ok s i t && rec_ok s i f then set_slot s (holder_of s i t) k (Some (rec_of s i f)) else s.
@@ -223,7 +251,7 @@ Definition can_instantiate (s : state) (sp : ispec) : bool :=
   alive s RUNTIME && open s RUNTIME && alive s (sp_cm sp) && kind_eqb (o_kind (getd s (sp_cm sp))) KCompiled
   && memb (sp_cm sp) (o_reg (getd s ENGINE)) && is_none (o_owner (getd s (sp_cm sp)))
   && is_none (o_owner (getd s RUNTIME))
-  && forallb (impf_ok s) (sp_impf sp) && forallb (impt_ok s) (sp_impt sp).
+  && forallb (impf_ok s) (sp_impf sp) && forallb (impt_ok s) (sp_impt sp) && forallb (impg_ok s) (sp_impg sp).
 
 Definition instantiate (s : state) (sp : ispec) : state :=
   if can_instantiate s sp then
@@ -241,7 +269,10 @@ Definition instantiate (s : state) (sp : ispec) : state :=
     let '(s7, globs) := alloc_owned s6 ni KGlobal (repeat [None] (sp_nglob sp)) in
     let timp := map (fun p => holder_of s (fst p) (snd p)) (sp_impt sp) in
     let s8 := link_tables s7 ni timp in
-    let s9 := upd_obj (upd_obj s8 ni (set_dir (nme :: timp ++ texp ++ tpriv ++ globs))) nme (set_dir recs) in
+    let '(s8a, gexp) := alloc_globals s8 ni (sp_nexpg sp) in
+    let gimp := map (fun p => holder_of s (fst p) (snd p)) (sp_impg sp) in
+    let s8b := link_globals s8a ni gimp in
+    let s9 := upd_obj (upd_obj s8b ni (set_dir (nme :: timp ++ texp ++ tpriv ++ globs ++ gexp ++ gimp))) nme (set_dir recs) in
     let s10 := with_host (add_reg s9 RUNTIME ni) (ni :: host s9) in
     fold_left (fun st e => let '(t, k, f) := e in set_ref st ni t k f) (sp_elems sp) s10
   else s.
@@ -262,13 +293,14 @@ Definition step (s : state) (o : op) : state :=
   match o with
   | OCompile => compile s
   | OInstantiate sp => instantiate s sp
-  | OSetRef i t k f => set_ref s i t k f
+  | OSetRef i t k f =>
+      if holder_acc s i t && rec_ok s i f then set_slot s (holder_of s i t) k (Some (rec_of s i f)) else s
   | OCopy i ts ks td kd =>
-      if holder_ok s i ts && holder_ok s i td
+      if holder_acc s i ts && holder_acc s i td
       then set_slot s (holder_of s i td) kd (slot s (holder_of s i ts) ks) else s
-  | OClear i t k => if holder_ok s i t then set_slot s (holder_of s i t) k None else s
+  | OClear i t k => if holder_acc s i t then set_slot s (holder_of s i t) k None else s
   | OPassParam i f j t k =>
-      if rec_ok s i f && holder_ok s j t
+      if rec_ok s i f && holder_acc s j t
       then set_slot s (holder_of s j t) k (Some (rec_of s i f)) else s
   | OCallExport _ _ | OCallIndirect _ _ _ => s
   | OEnter i => if inst_ok s i then with_flight s (me_of s i :: flight s) else s
@@ -290,15 +322,26 @@ Definition step (s : state) (o : op) : state :=
 Definition run (s : state) (ops : list op) : state := fold_left step ops s.
 
 (* ---- tracked channels ----
-   Every op except OPassParam places references structurally (own/imported functions into own holders
-   or into shared tables the instance is involved in; copies between holders of one instance).
-   A parameter/result hand-over is tracked only when the receiver imports a function defined by the
-   sender (then its module engine visibly points to the sender's) or sender = receiver. *)
+   The step function performs every write the implementation performs; `tracked` says which writes go
+   through a channel on which wazero keeps the definer of the reference alive:
+     - element segments (part of OInstantiate, guarded by holder_ok);
+     - OSetRef: ref.func of an own or imported function stored by table.set/global.set into a holder that
+       tracks the instance: its own private table/global, or a shared TABLE (exported or imported: the table
+       lists the instance in involvingModuleInstances);
+     - OCopy: table.get/global.get from any holder of the instance, stored into a holder that tracks it;
+     - OClear;
+     - OPassParam (parameter/result hand-over): only when the receiving holder tracks the receiver AND the
+       receiver imports a function defined by the sender (its module engine visibly points to the sender's)
+       or sender = receiver.
+   Not tracked: a hand-over to an unrelated instance (F08), and ANY store into an exported/imported GLOBAL
+   (F08b): GlobalInstance has no involvingModuleInstances. *)
 Definition tracked (s : state) (o : op) : bool :=
   match o with
+  | OSetRef i t k f => negb (holder_acc s i t && rec_ok s i f) || involvedb s i (holder_of s i t)
+  | OCopy i ts ks td kd => negb (holder_acc s i ts && holder_acc s i td) || involvedb s i (holder_of s i td)
   | OPassParam i f j t k =>
-      negb (rec_ok s i f && holder_ok s j t)
-      || Nat.eqb i j || memb (me_of s i) (o_vis (getd s (me_of s j)))
+      negb (rec_ok s i f && holder_acc s j t)
+      || (involvedb s j (holder_of s j t) && (Nat.eqb i j || memb (me_of s i) (o_vis (getd s (me_of s j)))))
   | _ => true
   end.
 
@@ -308,7 +351,6 @@ Fixpoint all_tracked (s : state) (ops : list op) : bool :=
   | o :: r => tracked s o && all_tracked (step s o) r
   end.
 
-Definition no_param (o : op) : bool := match o with OPassParam _ _ _ _ _ => false | _ => true end.
 
 (* ---- dangling ---- *)
 Definition slots_alive (s : state) (x : nat) : bool :=
@@ -334,7 +376,8 @@ Record mspec := mkM {
   ms_impf : list (nat * nat);  (* (module index, record index) *)
   ms_impt : list (nat * nat);  (* (module index, holder index) *)
   ms_nfun : nat; ms_nexp : nat; ms_npriv : nat; ms_nglob : nat; ms_size : nat;
-  ms_elems : list (nat * nat * nat) }.
+  ms_elems : list (nat * nat * nat);
+  ms_nexpg : nat; ms_impg : list (nat * nat) }.
 
 Inductive hop :=
 | HCompile (m : nat) | HInst (m : nat)
@@ -378,20 +421,21 @@ Definition hstep (mods : list mspec) (h : hstate) (o : hop) : hstate * Z :=
   | HInst m =>
       match nth_error mods m, lookup (h_cm h) m with
       | Some ms, Some cm =>
-          match resolve (h_inst h) (ms_impf ms), resolve (h_inst h) (ms_impt ms) with
-          | Some fi, Some ti =>
-              let sp := mkSpec cm fi ti (ms_nfun ms) (ms_nexp ms) (ms_npriv ms) (ms_nglob ms) (ms_size ms) (ms_elems ms) in
+          match resolve (h_inst h) (ms_impf ms), resolve (h_inst h) (ms_impt ms), resolve (h_inst h) (ms_impg ms) with
+          | Some fi, Some ti, Some gi =>
+              let sp := mkSpec cm fi ti (ms_nfun ms) (ms_nexp ms) (ms_npriv ms) (ms_nglob ms) (ms_size ms) (ms_elems ms)
+                               (ms_nexpg ms) gi in
               let free := match lookup (h_name h) m with Some i => negb (registered s i) | None => true end in
               if h_rt h && free && can_instantiate s sp then
                 (mkH (step s (OInstantiate sp)) (h_cm h) (set_nth (h_inst h) m (Some (length (heap s)))) (h_rt h)
                      (set_nth (h_name h) m (Some (length (heap s)))) (h_fl h) (set_nth (h_bind h) m (h_inst h)), 0%Z)
               else (h, 1%Z)
-          | _, _ => (h, 1%Z)
+          | _, _, _ => (h, 1%Z)
           end
       | _, _ => (h, 1%Z)
       end
   | HCallExport m f => on_inst m (fun i => if rec_ok s i f then (h, call_pred s (Some (rec_of s i f))) else (h, 1%Z))
-  | HCallInd m t k => on_inst m (fun i => if holder_ok s i t then (h, call_pred s (slot s (holder_of s i t) k)) else (h, 1%Z))
+  | HCallInd m t k => on_inst m (fun i => if holder_acc s i t then (h, call_pred s (slot s (holder_of s i t) k)) else (h, 1%Z))
   | HSetRef m t k f => on_inst m (fun i => (upd_st (step s (OSetRef i t k f)), 0%Z))
   | HCopy m ts ks td kd => on_inst m (fun i => (upd_st (step s (OCopy i ts ks td kd)), 0%Z))
   | HClear m t k => on_inst m (fun i => (upd_st (step s (OClear i t k)), 0%Z))
@@ -411,7 +455,7 @@ Definition hstep (mods : list mspec) (h : hstate) (o : hop) : hstate * Z :=
   | HLeaveInd m t k =>
       let h' := mkH (step s OLeave) (h_cm h) (h_inst h) (h_rt h) (h_name h) None (h_bind h) in
       match h_fl h with
-      | Some i => (h', closed_pred i (if holder_ok s i t then call_pred s (slot s (holder_of s i t) k) else 1%Z))
+      | Some i => (h', closed_pred i (if holder_acc s i t then call_pred s (slot s (holder_of s i t) k) else 1%Z))
       | None => (h, 1%Z) end
   | HCloseMod m =>
       match lookup (h_inst h) m with
